@@ -183,6 +183,23 @@ def property_checks(inp):
         A(("zernikeArray(list, rot) = the rotated single modes (rot %g)" % rot_, float(numpy.abs(Zl_ - numpy.array([zk.zernike_nm(*zk.zernIndex(j_), N, rot_) for j_ in lst])).max()), 0.0))
         A(("zernike_noll(j, N, rot) = zernike_nm(n, m, N, rot), rotation given positionally or by keyword (rot %g)" % rot_,
            float(max(numpy.abs(zk.zernike_noll(j_, N, rot_) - zk.zernike_nm(*zk.zernIndex(j_), N, rot_)).max() + numpy.abs(zk.zernike_noll(j_, N, rot=rot_) - zk.zernike_nm(*zk.zernIndex(j_), N, rot=rot_)).max() for j_ in lst)), 0.0))
+    # Noll indices held in NumPy integer types (unsigned ones included) are the same indices; a count given as a 0-d array is a count
+    bad_u = 0
+    with warnings.catch_warnings():
+        warnings.simplefilter("ignore")
+        g8, w8 = zk.zernIndex(numpy.uint8(100)), zk.zernIndex(100)
+    A(("zernIndex of a numpy.uint8 index above 32 = zernIndex of the equal Python int", 0.0 if (int(g8[0]), int(g8[1])) == (int(w8[0]), int(w8[1])) else 1.0, 0.0))
+    for dt_ in (numpy.uint8, numpy.uint16, numpy.uint32, numpy.uint64, numpy.int16, numpy.int64):
+        for j_ in (2, 3, 7, 8, 13, 29, 100):
+            if dt_ is numpy.uint8 and j_ > 32:
+                continue
+            got_ = zk.zernIndex(dt_(j_)); want_ = zk.zernIndex(int(j_))
+            bad_u += 0 if (int(got_[0]) == int(want_[0]) and int(got_[1]) == int(want_[1])) else 1
+    A(("zernIndex of a NumPy integer (signed or unsigned) = zernIndex of the equal Python int", float(bad_u), 0.0))
+    arr_u = zk.zernikeArray(numpy.arange(1, J + 1, dtype=numpy.uint16), N)
+    A(("zernikeArray of an unsigned index array = zernikeArray of the count", float(numpy.abs(arr_u - Zs).max()) if arr_u.shape == Zs.shape else float("inf"), 0.0))
+    cnt0 = zk.zernikeArray(numpy.array(J), N)
+    A(("zernikeArray of a count given as a 0-d array = zernikeArray of the count", float(numpy.abs(cnt0 - Zs).max()) if cnt0.shape == Zs.shape else float("inf"), 0.0))
     # index lists of any length (one index included), given as list, tuple or array: always the listed modes, never a count
     one = int(lst[-1])
     for form, arg in (("list", [one]), ("tuple", (one,)), ("array", numpy.array([one]))):
@@ -257,8 +274,13 @@ def replay(payload):
 
 
 def classify(v, known):
-    return False
+    return known["id"] == "C12-zernindex-uint8-overflow" and v["clause"] == "zernIndex of a numpy.uint8 index above 32 = zernIndex of the equal Python int"
 
 
 def replay_known(known):
+    if known["id"] == "C12-zernindex-uint8-overflow":
+        with warnings.catch_warnings():
+            warnings.simplefilter("ignore")
+            g = zk.zernIndex(numpy.uint8(100))
+        return (int(g[0]), int(g[1])) != (13, 9)
     return None
